@@ -1,5 +1,7 @@
 mod canon;
+mod check;
 mod exec;
+mod gen;
 mod lean;
 mod rng;
 mod transport;
@@ -17,7 +19,8 @@ fn main() {
             for l in std::io::BufReader::new(f).lines() {
                 sess.line(&l.unwrap());
             }
-            let ms = world.borrow_mut().lean.end();
+            let props = args.get(3).cloned().unwrap_or_default();
+            let ms = world.borrow_mut().lean.end(&props);
             for l in world.borrow_mut().lean.take_trace() {
                 println!("{}", l);
             }
@@ -26,8 +29,30 @@ fn main() {
             }
             std::process::exit(if ms.is_empty() { 0 } else { 1 });
         }
+        Some("check") => {
+            // kharness check <prop> <tier> <seed> [corpus-dir]
+            let prop = &args[2];
+            let tier = args.get(3).map(|s| s.as_str()).unwrap_or("quick");
+            let seed: u64 = args.get(4).and_then(|s| s.parse().ok()).unwrap_or(1);
+            let mut corpus: Vec<Vec<String>> = Vec::new();
+            if let Some(dir) = args.get(5) {
+                if let Ok(rd) = std::fs::read_dir(dir) {
+                    let mut files: Vec<_> = rd.filter_map(|e| e.ok()).map(|e| e.path()).collect();
+                    files.sort();
+                    for f in files {
+                        if let Ok(txt) = std::fs::read_to_string(&f) {
+                            corpus.push(txt.lines().map(|l| l.to_string()).collect());
+                        }
+                    }
+                }
+            }
+            // panics inside the crate are expected outcomes in some scenarios: keep stderr quiet
+            std::panic::set_hook(Box::new(|_| {}));
+            let rep = check::run(prop, tier, seed, &corpus);
+            println!("{}", check::report_json(prop, &rep));
+        }
         _ => {
-            eprintln!("usage: kharness run <scenario>");
+            eprintln!("usage: kharness run <scenario> [props] | check <prop> <tier> <seed> [corpus-dir]");
             std::process::exit(2);
         }
     }
